@@ -29,7 +29,7 @@ INVARIANTS TypeOK Total Export
 
 # labels every generator action puts on its terminal states: all must occur (vacuity guard; -coverage is not
 # usable on the Chrono modules, it does not terminate in TLC's start-up phase)
-GEN_LABELS = {"dt", "du", "cal", "cal-feb", "mut-alias", "lim-dt", "lim-du", "frac-dt", "frac-du", "fracseed-dt", "fracseed-du", "fracbound-dt",
+GEN_LABELS = {"dt", "du", "cal", "cal-feb", "mut-alias", "du-extreme", "lim-dt", "lim-du", "frac-dt", "frac-du", "fracseed-dt", "fracseed-du", "fracbound-dt",
               "fracbound-du", "mut-base", "mut-delete", "mut-insert", "mut-replace"}
 
 
